@@ -14,6 +14,7 @@ Exit 2: inconclusive (solver unknown, unwinding failure, engine error,
         vacuous harness, counterexample that does not reproduce). No VIOLATION line.
 """
 import argparse
+import re
 import fnmatch
 import hashlib
 import json
@@ -90,8 +91,11 @@ def signature(v):
     tags = ",".join(sorted(v.get("tags") or []))
     sig = v["label"]
     if v["kind"] != "assert":
-        d = (v.get("detail") or "").split("\n")[0][:120]
-        sig += ":" + d
+        d = (v.get("detail") or "").split("\n")[0]
+        if v["kind"] == "deadlock":
+            # goroutine numbers and addresses differ between schedules of one and the same wedge
+            d = re.sub(r"0x[0-9a-f]+|\d+", "N", d)
+        sig += ":" + d[:120]
     if tags:
         sig += "{" + tags + "}"
     return sig
@@ -428,7 +432,12 @@ def run_property(pid, tier, seed, cfg, scratch, t0):
                 return kf
         return None
     demonstrated = set()  # replay paths of listed findings whose native demonstration is committed (schedule-dependent)
-    for sig, lst in by_sig.items():
+    by_label_only = set()  # replay paths not run natively because enough signatures of the same label are
+    max_native = cfg.get("max_native_replays", 24)
+    n_native = 0
+    labels_replayed = {}
+    # unknown signatures first, so the replay budget goes to what would be reported
+    for sig, lst in sorted(by_sig.items(), key=lambda kv: (known_match(kv[0]) is not None, kv[0])):
         reps[sig] = []
         for run, v in lst[: cfg.get("replays_per_signature", 2)]:
             path = write_replay(pid, run, v)
@@ -440,10 +449,15 @@ def run_property(pid, tier, seed, cfg, scratch, t0):
                 demonstrated.add(path)
                 continue
             if not cfg.get("no_native_replay") and not run.get("no_native"):
+                if n_native >= max_native and labels_replayed.get(v["label"], 0) > 0:
+                    by_label_only.add(path)
+                    continue
+                n_native += 1
+                labels_replayed[v["label"]] = labels_replayed.get(v["label"], 0) + 1
                 per_pkg.setdefault(run["pkg"], []).append((run["entry"], path))
     replay_log = ""
     for pkg, items in per_pkg.items():
-        res, out = native_replay(pkg, items, scratch, attempts=attempts_cfg, gomaxprocs1=cfg.get("gomaxprocs1", False))
+        res, out = native_replay(pkg, items, scratch, attempts=attempts_cfg, timeout=cfg.get("replay_timeout", 600), gomaxprocs1=cfg.get("gomaxprocs1", False))
         replay_results.update(res)
         replay_log += out[-2000:]
     # translator validation: model vectors of sampled violation-free paths are run
@@ -497,6 +511,16 @@ def run_property(pid, tier, seed, cfg, scratch, t0):
             if ok:
                 n_reproduced += 1
                 confirmed.setdefault(sig, (path, r))
+    # signatures beyond the native replay budget: confirmed when another signature of the same
+    # assertion label reproduced natively
+    confirmed_labels = set(by_sig[s_][0][1]["label"] for s_ in confirmed if s_ in by_sig)
+    for sig, lst in reps.items():
+        if sig in confirmed:
+            continue
+        for run, v, path in lst:
+            if path in by_label_only and v["label"] in confirmed_labels:
+                confirmed[sig] = (path, "not-replayed (replay budget; another violation of this assertion reproduced natively)")
+                break
     unreproduced = [sig for sig in by_sig if sig not in confirmed]
     for sig in unreproduced:
         paths = [p for _, _, p in reps[sig]]
